@@ -191,14 +191,17 @@ def cosim(gdir, seed=None, histories=300, length=80):
 class Unit:
     """one contract enforcement: goto-cc -> goto-instrument --dfcc -> cbmc"""
 
-    def __init__(self, container, fn, maxcap, spec, info, gen, lockcov=False, timeout=900, modular=False, sym=False, case=None):
+    def __init__(self, container, fn, maxcap, spec, info, gen, lockcov=False, timeout=900, modular=False, sym=False, case=None, rangelen=2):
         self.container, self.fn, self.maxcap, self.spec, self.info, self.gen = container, fn, maxcap, spec, info, gen
         self.lockcov = lockcov
         self.timeout = timeout
         self.modular = modular  # True: callees that have a contract are replaced by it (DFCC); False: inlined
         self.sym = sym and bool(spec.canon) and not fn.endswith('__ctor')  # symmetry-reduced pre-state (canonical node numbering)
         self.case = case  # (index, expr): one case of a case split of the precondition
+        self.rangelen = rangelen  # bound on the length of caller ranges (range methods only)
         self.id = '%s/B%d%s%s%s%s' % (fn, maxcap, '/lockcov' if lockcov else '', '/modular' if modular else '', '/sym' if self.sym else '', '/case%d' % case[0] if case else '')
+        if 'SPEC_RANGE_LEN' in ' '.join(c.expr for c in spec.funcs[fn].clauses):
+            self.id += '/len%d' % rangelen
 
     def extra_requires(self):
         x = []
@@ -301,6 +304,16 @@ def lock_exempt(info, method, member):
     return bool(ops) and set(ops) <= RACE_FREE_CONTAINER_OPS
 
 
+_spec_headers = None
+
+
+def SPEC_HEADERS():
+    global _spec_headers
+    if _spec_headers is None:
+        _spec_headers = set(os.path.basename(x) for x in files_under(os.path.join(VERIF, 'contracts'), {'.h'}))
+    return _spec_headers
+
+
 def classify(res, unit, linemap, srcname):
     """one CBMC property result -> dict(id, kind, tags)"""
     desc = res.get('description', '')
@@ -335,7 +348,7 @@ def classify(res, unit, linemap, srcname):
         return dict(base, id='%s/call:%s.requires.%s' % (unit.id, cfn, cl.id), kind='callee-precondition', tags=list(container_props), expr=cl.expr)
     if 'is_fresh' in desc or 'assigns' in desc.lower() or 'assignable' in desc.lower() or prop.startswith('__CPROVER_contracts') or '__CPROVER_contracts' in fn:
         return dict(base, id='%s/frame:%s' % (unit.id, prop), kind='frame', tags=['C08'])
-    if os.path.basename(f) in (unit.spec.header, 'spec_common.h'):
+    if os.path.basename(f) in SPEC_HEADERS():
         return dict(base, id='%s/spec-sanity:%s' % (unit.id, prop), kind='spec-sanity', tags=[])
     if 'Check requires clause' in desc or 'Check ensures clause' in desc:
         return dict(base, id='%s/contract:%s' % (unit.id, prop), kind='contract-other', tags=list(container_props))
@@ -366,7 +379,7 @@ def run_unit(unit, want_trace=False):
     inc = ['-I' + os.path.join(VERIF, 'cstl'), '-I' + os.path.join(VERIF, 'contracts'), '-I' + gen, '-I' + udir]
     t0 = time.time()
     res = dict(unit=unit.id, container=unit.container, function=unit.fn, maxcap=unit.maxcap, key=key, cached=False, replaced=unit.replaced())
-    cmd1 = ['goto-cc', '-DCSTL_CBMC', '-DMAXCAP=%d' % unit.maxcap] + inc + ['--function', 'h_' + unit.fn, os.path.join(udir, 'h.c'), '-o', os.path.join(udir, 'a.%d.gb' % os.getpid())]
+    cmd1 = ['goto-cc', '-DCSTL_CBMC', '-DMAXCAP=%d' % unit.maxcap, '-DSPEC_RANGE_LEN=%d' % unit.rangelen] + inc + ['--function', 'h_' + unit.fn, os.path.join(udir, 'h.c'), '-o', os.path.join(udir, 'a.%d.gb' % os.getpid())]
     rc, out, err, _ = run(cmd1, timeout=120)
     if rc != 0:
         res.update(status='error', error='goto-cc: ' + (out + err)[-1500:])
